@@ -158,9 +158,15 @@ int ad_set_field_size(void *ses, uint32_t m, int sid)
 /* ---- libc rand() seam (E6). Linked with -Wl,--wrap=rand. ------------------------------------ */
 static uint64_t g_rand_state = 0x9E3779B97F4A7C15ULL;
 static uint64_t g_rand_calls = 0;
+/* degenerate-but-legal libc streams (fault kind "rand_degenerate"): rand() may return any value of [0, RAND_MAX] in any
+ * pattern; 1 = always 0, 2 = always RAND_MAX, 3 = alternating 0 / RAND_MAX, 4 = a counter. 0 = ordinary stream. */
+static int g_rand_mode = 0;
+static uint64_t g_rand_degenerate = 0;
 
-void ad_set_rand_stream(uint64_t seed) { g_rand_state = seed * 2 + 1; }
+void ad_set_rand_stream(uint64_t seed) { g_rand_state = seed * 2 + 1; g_rand_mode = 0; }
+void ad_set_rand_mode(int mode) { g_rand_mode = mode; }
 uint64_t ad_rand_calls(void) { return g_rand_calls; }
+uint64_t ad_rand_degenerate_calls(void) { return g_rand_degenerate; }
 
 static uint64_t next_rand(void);
 long __wrap_random(void) { return (long)(next_rand() & 0x7fffffff); }
@@ -176,6 +182,15 @@ int __wrap_rand(void)
 static uint64_t next_rand(void)
 {
     g_rand_calls++;
+    if (g_rand_mode) {
+        g_rand_degenerate++;
+        switch (g_rand_mode) {
+        case 1: return 0;
+        case 2: return 0x7fffffff;
+        case 3: return (g_rand_calls & 1) ? 0x7fffffff : 0;
+        default: return g_rand_calls;
+        }
+    }
     g_rand_state ^= g_rand_state << 13;
     g_rand_state ^= g_rand_state >> 7;
     g_rand_state ^= g_rand_state << 17;
